@@ -982,10 +982,33 @@ private:
             t.length * get_primitive_type_size(t.primitive_type);
     }
 
+    // values are compared numerically, `1` and `01` are the same value
+    static std::string get_canonical_enum_value(
+        const std::string_view value, const bool is_char)
+    {
+        if(is_char)
+        {
+            return std::string{value};
+        }
+
+        if(const auto signed_value =
+               utils::string_to_number<std::int64_t>(value))
+        {
+            return std::to_string(*signed_value);
+        }
+
+        return std::to_string(
+            utils::string_to_number<std::uint64_t>(value).value_or(0));
+    }
+
     void validate_valid_values(
         const std::vector<sbe::enum_valid_value>& valid_values,
         const std::string_view primitive_type) const
     {
+        // enumerators with the same value can't be told apart, `sbepp::visit()`
+        // and `sbepp::enum_to_string()` would get duplicate `case` labels
+        std::unordered_set<std::string> used_values;
+
         for(const auto& value : valid_values)
         {
             validate_name(value);
@@ -1003,6 +1026,15 @@ private:
                     value.location,
                     value.value,
                     primitive_type);
+            }
+
+            if(!used_values.insert(get_canonical_enum_value(value.value, is_char))
+                    .second)
+            {
+                throw_error(
+                    "{}: value `{}` is used by more than one `validValue`",
+                    value.location,
+                    value.value);
             }
         }
     }
